@@ -46,6 +46,8 @@ pub struct Crash {
     pub idx: u64,
     pub status: String,
     pub stderr_tail: String,
+    /// with `trace`: the last world the worker announced before it died
+    pub last_world: Option<String>,
 }
 
 pub struct PoolResult {
@@ -63,9 +65,13 @@ pub struct PoolSpec {
     pub workers: usize,
     /// worker runs every case twice in-process and fails if digests differ
     pub twice: bool,
+    /// workers announce every world (`WORLD <json>`) before running it, so that a death inside a
+    /// multi-world case (sweep) can be attributed to one world
+    pub trace: bool,
 }
 
 enum Msg {
+    World(usize, String),
     Begin(usize, u64),
     End(usize, Box<CaseResult>),
     Nondet(usize, u64, String),
@@ -87,6 +93,7 @@ struct Slot {
     next_from: u64,
     done: bool,
     last_msg: Instant,
+    last_world: Option<String>,
     stderr: std::sync::Arc<std::sync::Mutex<Vec<u8>>>,
 }
 
@@ -102,6 +109,8 @@ fn spawn(spec: &PoolSpec, shard: usize, start_from: u64, tx: mpsc::Sender<Msg>) 
         .arg(start_from.to_string())
         .arg(spec.to.to_string())
         .arg(if spec.twice { "twice" } else { "once" })
+        .env("RUST_BACKTRACE", "0")
+        .env("VERIF_TRACE_WORLDS", if spec.trace { "1" } else { "0" })
         .stdin(Stdio::null())
         .stdout(Stdio::piped())
         .stderr(Stdio::piped());
@@ -140,6 +149,8 @@ fn spawn(spec: &PoolSpec, shard: usize, start_from: u64, tx: mpsc::Sender<Msg>) 
                 if let Ok(r) = serde_json::from_str::<CaseResult>(rest) {
                     let _ = tx.send(Msg::End(shard, Box::new(r)));
                 }
+            } else if let Some(rest) = line.strip_prefix("WORLD ") {
+                let _ = tx.send(Msg::World(shard, rest.to_string()));
             } else if let Some(rest) = line.strip_prefix("NONDET ") {
                 let mut it = rest.splitn(2, ' ');
                 let i = it.next().and_then(|s| s.parse().ok()).unwrap_or(0);
@@ -148,7 +159,7 @@ fn spawn(spec: &PoolSpec, shard: usize, start_from: u64, tx: mpsc::Sender<Msg>) 
         }
         let _ = tx.send(Msg::Eof(shard));
     });
-    Ok(Slot { child, current: None, next_from: start_from, done: false, last_msg: Instant::now(), stderr })
+    Ok(Slot { child, current: None, next_from: start_from, done: false, last_msg: Instant::now(), last_world: None, stderr })
 }
 
 /// Run cases `from..to` of `property` across worker processes.
@@ -165,7 +176,12 @@ pub fn run_pool(spec: &PoolSpec) -> Result<PoolResult, String> {
     let mut live = spec.workers;
     while live > 0 {
         match rx.recv_timeout(Duration::from_secs(5)) {
+            Ok(Msg::World(s, w)) => {
+                slots[s].last_world = Some(w);
+                slots[s].last_msg = Instant::now();
+            }
             Ok(Msg::Begin(s, i)) => {
+                slots[s].last_world = None;
                 slots[s].current = Some(i);
                 slots[s].last_msg = Instant::now();
             }
@@ -187,7 +203,8 @@ pub fn run_pool(spec: &PoolSpec) -> Result<PoolResult, String> {
                 if let Some(i) = slots[s].current.take() {
                     // died inside case i: attribute, then continue the shard after it
                     let tail = String::from_utf8_lossy(&slots[s].stderr.lock().unwrap()).to_string();
-                    crashes.push(Crash { idx: i, status: format!("{status}"), stderr_tail: tail });
+                    let last_world = slots[s].last_world.take();
+                    crashes.push(Crash { idx: i, status: format!("{status}"), stderr_tail: tail, last_world });
                     let nf = i + 1;
                     slots[s] = spawn(spec, s, nf, tx.clone())?;
                 } else if !status.success() {
@@ -219,7 +236,7 @@ pub fn run_pool(spec: &PoolSpec) -> Result<PoolResult, String> {
 /// Run one case in a fresh process (used to confirm crashes and for the cross-process
 /// determinism comparison). Returns Ok(None) if the process died.
 pub fn run_single_fresh(property: &str, tier: &str, seed: u64, idx: u64) -> Result<Option<CaseResult>, String> {
-    let spec = PoolSpec { property: property.into(), tier: tier.into(), seed, from: idx, to: idx + 1, workers: 1, twice: false };
+    let spec = PoolSpec { property: property.into(), tier: tier.into(), seed, from: idx, to: idx + 1, workers: 1, twice: false, trace: false };
     let r = run_pool(&spec)?;
     Ok(r.results.into_values().next())
 }
@@ -270,6 +287,22 @@ pub fn worker_main(args: &[String], run_case: &dyn Fn(&str, &str, u64, u64) -> C
         }
         let mut o = stdout.lock();
         let _ = writeln!(o, "END {}", serde_json::to_string(&r).unwrap());
+        let _ = o.flush();
+    }
+}
+
+pub fn trace_worlds() -> bool {
+    use std::sync::OnceLock;
+    static T: OnceLock<bool> = OnceLock::new();
+    *T.get_or_init(|| std::env::var("VERIF_TRACE_WORLDS").map(|v| v == "1").unwrap_or(false))
+}
+
+/// Announce a world before running it (only in trace mode).
+pub fn announce_world(json: impl FnOnce() -> String) {
+    if trace_worlds() {
+        let stdout = std::io::stdout();
+        let mut o = stdout.lock();
+        let _ = writeln!(o, "WORLD {}", json());
         let _ = o.flush();
     }
 }
